@@ -195,15 +195,30 @@ def check_stage(chk, c, f, xp, stage, data, drv, tol, sig, case):
     if not np.all(np.abs(model_lp - impl_lp) <= tol * (1 + np.abs(impl_lp)) * 50):
         t = int(np.argmax(np.abs(model_lp - impl_lp)))
         chk.disagree("flow.log_prob", {**case, "stage": stage}, float(model_lp[t]), float(impl_lp[t]), f"point {pts[t].tolist()}")
-    # (3) supporting exploration: the density integrates to one over the support (1-D, bounded)
+    # (3) supporting exploration (1-D, bounded): over the interior of the support (outside the documented clipping margin) the mass of
+    #     exp(log_prob) equals the mass the neural base density puts on the image of that interior - change of variables, both sides by
+    #     quadrature on the same grid (uniform in the logit coordinate, so that mass close to a bound is resolved) - and it is one when
+    #     the base leaves (almost) nothing in the margin.  A proposal whose training went astray may put a large share of its mass INSIDE
+    #     the clipping margin, where log_prob is the density of the clipped point by design: comparing with 1 there would demand more
+    #     than the property states.
     if d == 1 and c["bounded"] != "off" and c["dtype"] == "float64":
-        grid = np.linspace(lo[0] + 1e-5 * (hi[0] - lo[0]), hi[0] - 1e-5 * (hi[0] - lo[0]), 20001)[:, None]
+        t = np.linspace(math.log(4 * EPS / (1 - 4 * EPS)), -math.log(4 * EPS / (1 - 4 * EPS)), 20001)
+        grid = (lo[0] + (hi[0] - lo[0]) / (1 + np.exp(-t)))[:, None]
         dens = np.exp(lp(f, grid))
         integ = float(np.trapezoid(dens, grid[:, 0]))
-        chk.extra.setdefault("quadrature_1d", []).append({"backend": c["backend"], "bounded": c["bounded"], "stage": stage, "integral": round(integ, 5)})
-        if not (0.98 < integ < 1.02):
+        line = " ".join(["f64", "tfm", "fwd"] + c04.cfg_wire(kinds, aff) + ["0"] + c04.rows_wire(grid))
+        rep = drv.ask(line)
+        if not rep.ok:
+            raise core.HarnessError(rep.err)
+        zg = np.asarray(rep.fs()).reshape(-1)
+        base_mass = float(np.trapezoid(np.exp(base_logprob(f, c, zg[:, None])), zg))
+        chk.extra.setdefault("quadrature_1d", []).append({"backend": c["backend"], "bounded": c["bounded"], "stage": stage, "integral": round(integ, 5),
+                                                          "base_mass_of_interior": round(base_mass, 5)})
+        chk.count("quadrature:margin_mass_above_1pc" if base_mass < 0.99 else "quadrature:margin_mass_below_1pc")
+        if not (abs(integ - base_mass) < 0.02) or (base_mass > 0.995 and not (0.98 < integ < 1.02)):
             chk.fail("log_prob integrates to one over the native space (supporting quadrature)", case,
-                     f"{stage}: trapezoid integral over the support = {integ:.5f}", {**sig, "clause": "normalised"})
+                     f"{stage}: integral of exp(log_prob) over the interior of the support = {integ:.5f}, mass of the base density on its image = {base_mass:.5f}",
+                     {**sig, "clause": "normalised"})
 
 
 def run(chk: core.Check):
